@@ -60,6 +60,13 @@ def is_update_call(st):
         st.value.func.attr == '_update_items_size' and isinstance(st.value.func.value, ast.Name) and st.value.func.value.id == 'self'
 
 
+def single(node):
+    """the element of a one element tuple / list display (``del_items=(self._items[index], )``), else None"""
+    if isinstance(node, (ast.Tuple, ast.List)) and len(node.elts) == 1 and not isinstance(node.elts[0], ast.Starred):
+        return node.elts[0]
+    return None
+
+
 def update_guards(stmts):
     """[(index, [(stmt, call, in_slice_branch)])] for each statement that guarantees a bound check on every path: a plain
     self._update_items_size(...) call, or an if/else whose every branch contains one (the branch taken for
@@ -153,11 +160,11 @@ def check(ctx, report):
                             report.add('C12.R1', '%s@%s' % (f.construct, kind),
                                        'bulk insertion must be checked as insert_items=<the materialised list that is then appended>')
                     if kind in ('del', 'setitem'):
-                        d = kw.get(dk)
+                        d = kw.get(dk) or single(kw.get('del_items'))
                         if not (isinstance(d, ast.Subscript) and self_items(d.value) and isinstance(d.slice, ast.Name) and d.slice.id in params):
                             report.add('C12.R1', '%s@%s' % (f.construct, kind), 'check does not name the item(s) being removed (%s=self._items[<index>])' % dk)
                     if kind in ('setitem', 'insert', 'append'):
-                        v = kw.get(ik)
+                        v = kw.get(ik) or single(kw.get('insert_items'))
                         if not (isinstance(v, ast.Name) and v.id in params):
                             report.add('C12.R1', '%s@%s' % (f.construct, kind), 'check does not name the item(s) being added (%s=<value>)' % ik)
                     other_d = 'del_item' if dk == 'del_items' else 'del_items'
@@ -235,8 +242,23 @@ def check(ctx, report):
     txt = ast.unparse(u.node)
     report.count('C12.R2')
     if 'size_diff -= self.param.get_item_size(del_item)' not in txt.replace('  ', ' ') or 'size_diff += self.param.get_item_size(insert_item)' not in txt:
-        signs = [(ast.unparse(n.target), type(n.op).__name__, ast.unparse(n.value)) for n in ast.walk(u.node) if isinstance(n, ast.AugAssign)]
-        ok = ('size_diff', 'Sub', 'self.param.get_item_size(del_item)') in signs and ('size_diff', 'Add', 'self.param.get_item_size(insert_item)') in signs
+        # the sizes of what is removed are subtracted, the sizes of what is added are added: single items by their parameter, bulk
+        # edits by the loop over their parameter
+        source = {}
+        for loop in ast.walk(u.node):
+            if isinstance(loop, ast.For) and isinstance(loop.target, ast.Name):
+                for n in ast.walk(loop):
+                    if isinstance(n, ast.AugAssign):
+                        source[id(n)] = (loop.target.id, ast.unparse(loop.iter))
+        signs = set()
+        for n in ast.walk(u.node):
+            if isinstance(n, ast.AugAssign) and ast.unparse(n.target) == 'size_diff' and isinstance(n.value, ast.Call) and \
+                    ast.unparse(n.value.func) == 'self.param.get_item_size' and len(n.value.args) == 1 and isinstance(n.value.args[0], ast.Name):
+                src = n.value.args[0].id
+                var, walked = source.get(id(n), (None, None))
+                signs.add((type(n.op).__name__, walked if var == src else src))
+        ok = signs and {s for s, _ in signs} == {'Sub', 'Add'} and all(w.startswith('del_item') for s, w in signs if s == 'Sub') and \
+            all(w.startswith('insert_item') for s, w in signs if s == 'Add')
         if not ok:
             report.add('C12.R2', u.construct + '@diff', 'size difference must be -size(del_item) +size(insert_item)')
     r2_done(ctx, report, model, ab, classes, it)
@@ -555,7 +577,7 @@ def construction_tabulation(ctx, report, ab=None, RULE='C12.R10'):
 
         def get_item_size(self, item):
             if not isinstance(item, int) or isinstance(item, bool):
-                raise Unsupported('item of another kind')
+                raise Unsupported('item of another kind: %r' % (item,))
             return sz(item)
 
     class Vec(Native):
@@ -663,17 +685,19 @@ def edit_tabulation(ctx, report, ab=None):
     ab = ab or model.cls('ArrayBase')
     report.rule('C12.R9', 'every edit of the sequence interface, from every small state: result of the plain list edit with exact size bookkeeping, or refused with nothing changed')
     MN, MX = 2, 5
-    ALPHABET = (0, 1, 2)
+    # three numbers of sizes 1, 2, 3 and None (a value like any other for a list; a parameter object that sizes items by their
+    # kind, as VectorParamNumeric does, gives it a size too - here 1)
+    ALPHABET = (0, 1, 2, None)
 
     def sz(item):
-        return item + 1
+        return 1 if item is None else item + 1
 
     class Param(Native):
         min_byte_num, max_byte_num, item_size = MN, MX, 1
 
         def get_item_size(self, item):
-            if not isinstance(item, int) or isinstance(item, bool):
-                raise Unsupported('item of another kind')
+            if item is not None and (not isinstance(item, int) or isinstance(item, bool)):
+                raise Unsupported('item of another kind: %r' % (item,))
             return sz(item)
 
     class Vec(Native):
@@ -703,7 +727,8 @@ def edit_tabulation(ctx, report, ab=None):
             env[p_] = val
         return Evaluator(env, hook, nh).function(f.node)
     states = [list(t) for n in range(0, 5) for t in itertools.product(ALPHABET, repeat=n) if MN <= sum(sz(x) for x in t) <= MX]
-    idx = (-4, -1, 0, 1, 2, 3, 5)
+    # positions: inside, at and beyond both ends; and two values a list refuses as a position (TypeError, nothing changed)
+    idx = (-4, -1, 0, 1, 2, 3, 5, None, '1')
     slices = [slice(None), slice(0, 1), slice(1, None), slice(0, 0), slice(1, 3), slice(None, None, 2), slice(None, None, -1), slice(3, 9), slice(-2, None)]
     class OneShot(Native):
         # an iterator: can be walked once (a generator handed to extend / += / slice assignment)
@@ -720,7 +745,7 @@ def edit_tabulation(ctx, report, ab=None):
 
         def __repr__(self):
             return 'iter(%s)' % self.shown
-    values = [[], [0], [2], [1, 0], [2, 2, 2], ('once', [1, 0]), ('once', [2])]
+    values = [[], [0], [2], [1, 0], [2, 2, 2], [None], [None, 1], ('once', [1, 0]), ('once', [2])]
 
     def fresh(val):
         return OneShot(val[1]) if isinstance(val, tuple) and val and val[0] == 'once' else val
@@ -794,10 +819,13 @@ def edit_tabulation(ctx, report, ab=None):
     cases += [('append', x, None) for x in ALPHABET] + [('remove', x, None) for x in ALPHABET]
     cases += [('extend', val, None) for val in values] + [('iadd', val, None) for val in values] + [('clear', None, None), ('reverse', None, None)]
     LIST_ERRORS = ('IndexError', 'ValueError', 'TypeError')
+    failed = set()        # one report per kind of edit: the first state and arguments that show it
     try:
         for items in states:
             for op, a, b in cases:
                 report.count('C12.R9')
+                if '%s@edit[%s]' % (ab.name, op) in failed:
+                    continue
                 want_exc, want_items = None, None
                 try:
                     want_items = ref(items, op, plain(a), plain(b))
@@ -817,23 +845,27 @@ def edit_tabulation(ctx, report, ab=None):
                     got_exc = e.what.split('(')[0].split('.')[-1]
                 except (IndexError, ValueError, TypeError) as e:
                     got_exc = type(e).__name__
-                where = '%s(%s%s) on %s' % (op, a, '' if b is None else ', %s' % (b,), items)
+                where = '%s(%s%s) on %s' % (op, a, ', %s' % (b,) if op in ('setitem', 'setslice', 'insert') else '', items)
                 key = '%s@edit[%s]' % (ab.name, op)
                 if want_exc is not None:
                     if got_exc != want_exc and not (want_exc in LIST_ERRORS and got_exc in LIST_ERRORS):
                         report.add('C12.R9', '%s:%s' % (ab.module.relpath, key), '%s: expected %s, the edit %s' % (where, want_exc, 'is accepted (items %s, size %s)' % (v._items, v._items_size) if got_exc is None else 'raises ' + got_exc))
-                        return True
+                        failed.add(key)
+                        continue
                     if v._items != items or v._items_size != sum(sz(x) for x in items):
                         report.add('C12.R9', '%s:%s' % (ab.module.relpath, key), '%s is refused with %s but leaves items %s / size %s behind (were %s / %s): a refused edit must change nothing' % (
                             where, got_exc, v._items, v._items_size, items, sum(sz(x) for x in items)))
-                        return True
+                        failed.add(key)
+                        continue
                 else:
                     if got_exc is not None:
                         report.add('C12.R9', '%s:%s' % (ab.module.relpath, key), '%s: a plain list gives %s (size %d, within %d..%d), the vector raises %s' % (where, want_items, size, MN, MX, got_exc))
-                        return True
+                        failed.add(key)
+                        continue
                     if v._items != want_items or v._items_size != size:
                         report.add('C12.R9', '%s:%s' % (ab.module.relpath, key), '%s: a plain list gives %s (size %d); the vector holds %s and books size %s' % (where, want_items, size, v._items, v._items_size))
-                        return True
+                        failed.add(key)
+                        continue
     except Unsupported as e:
         report.sample({'rule': 'C12.R9', 'tabulation': 'not applicable (%s): the typestate rules R1-R6 decide alone' % str(e)[:100]})
         return False
